@@ -593,7 +593,12 @@ class Case:
         old_fee, vs = t.fee, t.vsize
         mode = rng.choice(['fee', 'fee', 'extra', 'extra', 'extra', 'small'])
         ch_total = sum(v for v, c, _ in outs0 if c)
-        x = max(vs, rng.choice([vs, vs + 1, vs + 50, 500, 1000, 2000, 2000, ch_total // 5, ch_total // 3, ch_total // 2, ch_total, ch_total + 5])) if mode != 'small' else max(1, vs - 1)
+        x = max(vs, rng.choice([vs, vs + 1, vs + 50, 500, 1000, 2000, 2000, ch_total // 5, ch_total // 3, ch_total // 2, ch_total, ch_total + 5, int(ch_total * rng.uniform(0.3, 0.99)), int(ch_total * rng.uniform(0.5, 0.99))])) if mode != 'small' else max(1, vs - 1)
+        chs = [v for v, c, _ in outs0 if c]
+        if len(chs) >= 2 and chs[1] < 2 * chs[0] and max(chs[0], chs[1]) + 2 < chs[0] + chs[1] // 2 and rng.random() < 0.7:
+            # the first change output is used up and the second one pays the rest: an extra fee above either of them, below their sum
+            x = max(vs, (max(chs[0], chs[1]) + chs[0] + chs[1] // 2) // 2)
+            ctx.count('bumpfee:second-change-output-pays-the-rest')
         kw = {'fee': old_fee + x} if mode == 'fee' else {'extra_fee': x}
         rep = {'op': 'bumpfee', 'kind': self.kind, 'wseed': self.wseed, 'old_fee': old_fee, 'vsize': vs, 'args': kw, 'outputs_before': [(v, c) for v, c, _ in outs0]}
         from bitcoinlib.transactions import Transaction
@@ -602,6 +607,10 @@ class Case:
             Transaction.bumpfee(t, **kw)
         except TransactionError as e:
             err = str(e)
+        except Exception as e:
+            ctx.violation('bumpfee raised something else than a refusal (and left the transaction object changed)',
+                          dict(rep, error=repr(e)[:120], outputs_after=[(o.value, bool(o.change)) for o in t.outputs]))
+            return
         line = 'txc_bump %d %d %d %d %s' % (old_fee, vs, kw.get('fee', 0), kw.get('extra_fee', 0), ','.join('%d:%s' % (v, 'c' if c else 'r') for v, c, _ in outs0))
         model = run_driver([line])[0].split(' | ')[0]
         ctx.evals += 1
